@@ -395,6 +395,9 @@ func (b *Broker) setSession(client *Client, connect *packets.ConnectPacket) {
 		client.session = prevSess
 	} else {
 		if prevSess != nil {
+			// the discarded session's filters must not stay routed to the client id
+			topics, _, _ := prevSess.allSubscribes()
+			b.topicMgr.unsubscribe(topics, connect.ClientIdentifier)
 			prevSess.close()
 		}
 		client.session = b.sessMgr.newSessionFromConn(connect)
@@ -457,6 +460,14 @@ func (b *Broker) getClient(clientID string) *Client {
 		return val
 	}
 	return nil
+}
+
+// superseded reports whether another connection is registered for the client id of c.
+func (b *Broker) superseded(c *Client) bool {
+	b.RLock()
+	defer b.RUnlock()
+	cur, ok := b.clients[c.info.cid]
+	return ok && cur != c
 }
 
 func (b *Broker) removeClient(clientID string) {
